@@ -146,6 +146,11 @@ def c_remapper(kind):
         origin, size = 0, None
         src = [SoCRegion(origin=0x0000_0000, size=0x1000), SoCRegion(origin=0x4000_0000, size=0x800)]
         dst = [SoCRegion(origin=0x2000_0000, size=0x1000), SoCRegion(origin=0x0000_8000, size=0x800)]
+    elif kind == "regions-unaligned":
+        # source/destination origins that are not multiples of the region size, a size that is not a power of two, a later region overriding an earlier one
+        origin, size = 0, None
+        src = [SoCRegion(origin=0x4000_0800, size=0x1800), SoCRegion(origin=0x0000_0c00, size=0x0c00), SoCRegion(origin=0x0000_1000, size=0x0400)]
+        dst = [SoCRegion(origin=0x2000_0400, size=0x1800), SoCRegion(origin=0x7000_0100, size=0x0c00), SoCRegion(origin=0x1234_5000, size=0x0400)]
     else:
         origin, size = 0x8000_0000, 0x1000_0000
         src = [SoCRegion(origin=0x8000_1000, size=0x1000)]; dst = [SoCRegion(origin=0x0000_0000, size=0x1000)]
@@ -200,7 +205,7 @@ def cases(tier):
           Case("SRAM(4x32,init)", c_sram, 4, 32, False, [0x11223344, 0xa5a5a5a5, 0x01020304]), Case("SRAM(4x64)", c_sram, 4, 64),
           Case("DownConverter(32->16)", c_down, 32, 16), Case("DownConverter(32->8)", c_down, 32, 8), Case("DownConverter(64->32)", c_down, 64, 32),
           Case("UpConverter(16->32)", c_up, 16, 32), Case("UpConverter(8->32)", c_up, 8, 32), Case("Converter(32->64)", c_up, 32, 64, 8, True), Case("Converter(32->32)", c_same_width),
-          Case("Remapper(origin)", c_remapper, "origin"), Case("Remapper(regions)", c_remapper, "regions"), Case("Remapper(both)", c_remapper, "both"),
+          Case("Remapper(origin)", c_remapper, "origin"), Case("Remapper(regions)", c_remapper, "regions"), Case("Remapper(both)", c_remapper, "both"), Case("Remapper(regions-unaligned)", c_remapper, "regions-unaligned"),
           Case("Wishbone2CSR(register=True)", c_wb2csr, True), Case("Wishbone2CSR(register=False)", c_wb2csr, False), Case("Wishbone2CSR(register=True,byte)", c_wb2csr, True, "byte")]
     if tier == "thorough":
         cs += [Case("SRAM(16x32)", c_sram, 16), Case("DownConverter(64->8)", c_down, 64, 8), Case("UpConverter(8->64)", c_up, 8, 64)]
